@@ -49,6 +49,10 @@ void NameCatalog::indexNodeAndMarkAsEncloser(const SyntaxNode* node)
         tyUseAndDef = std::get<Types>(iter->second);
         nonTyUseAndDef = std::get<NonTypes>(iter->second);
     }
+    else {
+        tyUseAndDef = std::get<Types>(outermostEnclosure_);
+        nonTyUseAndDef = std::get<NonTypes>(outermostEnclosure_);
+    }
 
     enclosureIdx_.insert(
             std::make_pair(
@@ -163,7 +167,11 @@ bool NameCatalog::isIndexed(const SyntaxNode* node) const
 
 NameCatalog::Enclosure* NameCatalog::currentEnclosure() const
 {
-    PSY_ASSERT_2(!enclosureStack_.empty(), return nullptr);
+    // The names of a fragment (an expression, a statement, or a declaration
+    // that is parsed on its own) are cataloged in an outermost enclosure.
+    if (enclosureStack_.empty())
+        return &outermostEnclosure_;
+
     PSY_ASSERT_2(isIndexed(enclosureStack_.top()), return nullptr);
 
     return &enclosureIdx_[enclosureStack_.top()];
